@@ -127,6 +127,30 @@ def gen_cases(ctx, nbase):
                     else:
                         m[24:28] = (len(m)).to_bytes(4, "little")
                     out.append(mk(bytes(m), {lvl, "cut-no-crc+len"}, note="crit"))
+    # the common CRC header FOLLOWED by each other extended-header type (and preceded by it): whatever a later header's decoder does to the
+    # header object, the whole-header CRC must still be checked - one byte of the later header's data is substituted, CRC left alone
+    known = [(0x01, b"name.txt"), (0x02, b"dir\xff"), (0x41, bytes(24)), (0x50, (0o100644).to_bytes(2, "little")), (0x51, bytes(4)),
+             (0x52, b"grp"), (0x53, b"usr"), (0x54, (1000000000).to_bytes(4, "little")), (0xcc, bytes(range(1, 13))), (0x7e, b"xyz"),
+             (0x40, b"\x20\x00"), (0xff, bytes(6))]
+    for lvl in (1, 2, 3):
+        for (t, dat) in known:
+            for cpos in (0, 1):
+                f = E.Fields(level=lvl, method=b"-lh0-", clen=0, length=0, crc=0, os_type=r.choice([0x55, 0x39, 0x4d]),
+                             name=b"n" if lvl == 1 else b"", time=0x3c210000 if lvl == 1 else 1000000000,
+                             exts=[(t, dat)] + ([(0x01, b"f")] if t != 0x01 and lvl > 1 else []), common_crc=True)
+                f.common_pos = cpos
+                hb = E.encode(f)
+                tail = bytes(r.randrange(256) for _ in range(4))
+                lv = "L%d" % lvl
+                out.append(mk(hb + tail, {lv, "ext-order", "unmodified"}))
+                # locate the data of ext `t` (first occurrence of its type byte followed by its data)
+                pos = hb.find(bytes([t]) + dat)
+                if pos < 0:
+                    continue
+                for k in range(1, len(dat) + 1):
+                    m = bytearray(hb)
+                    m[pos + k] ^= r.choice([0x01, 0x80, 0xff])
+                    out.append(mk(bytes(m) + tail, {lv, "ext-order", "after-common" if cpos == 0 else "before-common", "t=%02x" % t}, note="crit"))
     return out
 
 
